@@ -202,6 +202,17 @@ CHECKS["C06"] = {
     "explanation": "symbolic equality of len and write-return expressions + tables + dispatch arms",
 }
 
+CHECKS["C04"] = {
+    "module": "rules_c04",
+    "level": "translation_validation",
+    "quick_fs": ["default"],
+    "thorough_fs": ["default", "both"],
+    "technique": "exhaustive comparison of the const-evaluated encode tables with an independent executable definition; comparison of each writer's emitted field sequence (resolved MIR calls, linear-form normalisation) with the documented structure of its code",
+    "claim": "Partial, stated as such: (D1) for gamma, delta and zeta3 every table codeword (values <= WRITE_MAX = 63/1023/1023, both endiannesses, 4224 entries) equals the codeword of the published definition as transcribed in refcodes.py, and the documented example table of src/codes/mod.rs agrees with both; (D2) for gamma, delta, zeta_k, minimal binary, pi_k, Rice, Golomb and exp-Golomb the bit-by-bit writer emits on every path exactly the documented sequence of fields: unary(floor(log2(n+1))) then a floor(log2(n+1))-bit field; gamma(length) for delta; Rice_k(length) for pi; unary + minimal binary with the documented arguments for zeta/Golomb; gamma(n>>k) + k bits for exp-Golomb; minimal binary's l-bit prefix first and its extra bit last in both endiannesses. NOT decided: the value operand of the fixed-width fields (congruence mod 2^w) and the bit order inside primitives (C01's remainder); omega and VByte structure.",
+    "note": "Trusted: rustc const evaluation/MIR, exporter, refcodes.py and the skeleton table (both written from the module documentation). D2 compares resolved calls and linear forms, not source text; an equivalent re-derivation of the same fields with different arithmetic would need the table updated.",
+    "explanation": "tables vs definitions + emitted field skeletons vs documented structure",
+}
+
 NOT_APPLICABLE = {
     "C17": "a bijection over all values of six integer widths is a statement about (x>>1)^-(x&1) on 2^n values: the generic body is a chain of operator-trait calls with no table, pairing, ordering or ownership structure to check; proving the identity needs bit-vector reasoning (a solver) or running it, both outside static analysis (DESIGN.md section 6)",
 }
